@@ -48,6 +48,14 @@ func advertStr(s *Sim, a *tlv.Advertisement, normSelf bool) string {
 	if a == nil {
 		return "nil"
 	}
+	if pin, ok := s.advPin[a]; ok {
+		// the memory this stored advertisement points into has been overwritten by the harness
+		// (Options.ReuseWire): what it said when it was stored
+		if normSelf {
+			return pin[0]
+		}
+		return pin[1]
+	}
 	x := make([]string, 0, len(a.Entries))
 	for _, e := range a.Entries {
 		d, nh := "?", "?"
